@@ -528,12 +528,24 @@ def _run_unit(ccls, case_name, case, res, goal_rlimit):
             try:
                 custom = getattr(ccls, "replay", None)
                 ob["replay"] = custom(case, ob["name"], ob["model"] or {}) if custom is not None else None
+                if ob["replay"] is None and _uses_ghost_views_of_real_functions(ccls):
+                    # the inputs are ghost-shaped (assumed views of real repository functions): running the real bodies on
+                    # them natively says nothing; without a hand-written replay there is no failing input to show
+                    ob["replay"] = {"status": "not-replayable", "why": "the unit's inputs are ghost views of repository objects (assumed call-site contracts on real functions); no native replay is defined for it"}
                 if ob["replay"] is None:
                     ob["replay"] = replay(ccls, case, ob["model"] or {})
             except Exception:
                 ob["replay"] = {"status": "replay-error", "detail": traceback.format_exc()}
             if isinstance(ob.get("model"), dict):
                 ob["model"].pop("__regions__", None)     # the objects built for the replay are not part of the counter-model
+
+
+def _uses_ghost_views_of_real_functions(ccls):
+    for u in getattr(ccls, "uses", None) or []:
+        u = u[0] if isinstance(u, tuple) else u
+        if getattr(u, "abstract", False) and not u.target.startswith("spec.ext:"):
+            return True
+    return False
 
 
 def _conjuncts(t):
